@@ -336,6 +336,11 @@ def _run_history(desc, props=("C03", "C05", "C09")):
                 log.append(f"{si}: faulted run W={W} sched={sched} out={out_ids} fresh={fresh} fault@{f.k}={f.fired} -> {type(exc).__name__}")
                 if exc is None:
                     problems.append(("C06", f"step {si}: fault fired at {f.fired} but run returned normally", si))
+                    # ... and a run that RETURNS is a run that "completes successfully": its output and the stores must be right
+                    d = S.check_values(res, out_ids)
+                    if d:
+                        problems.append(("C03", f"step {si}: a run in which {f.fired} raised ({f.kind}) nevertheless returned normally, and {d}", si))
+                    break
                 last_ok = False
                 continue
         else:
